@@ -22,6 +22,23 @@ def root_of(node):
     return node.id if isinstance(node, ast.Name) else None
 
 
+def through_class_object(target, cls_params):
+    """the store target is reached through a class object: the class parameter of __new__ / a classmethod,
+    type(x) or x.__class__"""
+    node = target.value
+    while True:
+        if isinstance(node, ast.Name):
+            return node.id in cls_params
+        if isinstance(node, ast.Call):
+            return isinstance(node.func, ast.Name) and node.func.id == 'type' and len(node.args) == 1
+        if isinstance(node, ast.Attribute) and node.attr == '__class__':
+            return True
+        if isinstance(node, (ast.Attribute, ast.Subscript)):
+            node = node.value
+            continue
+        return False
+
+
 def own_nodes(fn):
     stack = list(fn.body)
     while stack:
@@ -99,6 +116,11 @@ def scan(tree, what, allow=()):
             if dn not in ALLOWED_DECORATORS:
                 out.append(('C18-no-cache', qual, f'{what}: {qual} is decorated with @{ast.unparse(d)} '
                                                   f'(a caching/registering decorator keeps state across calls)'))
+        cls_params = set()
+        if in_class and fn.args.args:
+            decos = {ast.unparse(d).split('(')[0].split('.')[-1] for d in fn.decorator_list}
+            if fn.name in ('__new__', '__init_subclass__', '__class_getitem__') or 'classmethod' in decos:
+                cls_params.add(fn.args.args[0].arg)
         a = fn.args
         for dflt in list(a.defaults) + [k for k in a.kw_defaults if k is not None]:
             if isinstance(dflt, (ast.List, ast.Dict, ast.Set, ast.ListComp, ast.DictComp, ast.SetComp)) or (
@@ -140,6 +162,13 @@ def scan(tree, what, allow=()):
                 targets = n.targets
             for t in targets:
                 for x in ([t] if not isinstance(t, (ast.Tuple, ast.List)) else t.elts):
+                    # the class object outlives every call: a store through the class parameter of __new__ / a
+                    # classmethod, through type(x) or x.__class__ is a store into state shared by all instances
+                    if isinstance(x, (ast.Attribute, ast.Subscript)) and through_class_object(x, cls_params):
+                        out.append(('C18-no-shared-store', qual,
+                                    f'{what}: {qual} stores through `{ast.unparse(x)}` into the class object: it is '
+                                    f'shared by every instance, every parse call and every thread'))
+                        continue
                     if isinstance(x, (ast.Attribute, ast.Subscript)):
                         r = root_of(x)
                         if shared(r) and (qual, r) not in allow:
